@@ -1022,35 +1022,52 @@ class _StubPrecondStrategy:
         return types.SimpleNamespace(diagonal=lambda: d)
 
 
+def _build_bco(BCO, *a, **k):
+    """construct the real BoundConstrainedObjective inside a trace the way it is constructed in real use as far as the index
+    set is concerned: constrainedIndices is a CONCRETE integer array, and operations on concrete values in __init__ (e.g. sorting /
+    de-duplicating the indices) run for real (jax.ensure_compile_time_eval) instead of being staged into the jaxpr"""
+    import jax
+    with jax.ensure_compile_time_eval():
+        return BCO.BoundConstrainedObjective(*a, **k)
+
+
 def _bco_case(h, with_precond):
     from ..jxh import Case
     import jax
     import jax.numpy as jnp
     from optimism import BoundConstrainedObjective as BCO
-    idx = jnp.array([2, 0])
+    idx = onp.array([2, 0])      # UNSORTED on purpose: get_multipliers()[i] must pair with the caller's i-th index
 
     def obj(x, p):
         A = jnp.array([[p[0], p[3], p[4]], [p[3], p[1], p[5]], [p[4], p[5], p[2]]])
         return 0.5 * x @ (A @ x) + p[6:9] @ x
 
-    def F(x0, p, Kd, css, xq):
+    def F(x0, p, Kd, css, xq, lamq):
         if with_precond:
-            o = BCO.BoundConstrainedObjective(obj, x0, p, idx, constraintStiffnessScaling=css, precondStrategy=_StubPrecondStrategy(Kd))
+            o = _build_bco(BCO, obj, x0, p, idx, constraintStiffnessScaling=css, precondStrategy=_StubPrecondStrategy(Kd))
         else:
-            o = BCO.BoundConstrainedObjective(obj, x0, p, idx)
+            o = _build_bco(BCO, obj, x0, p, idx)
         xb = o.scaling * xq
         g_scaled0 = jax.grad(lambda z: obj(o.invScaling * z, p))(o.scaling * x0)
-        return dict(lam0=o.lam, kappa0=o.kappa, scaling=o.scaling, inv=o.invScaling, c=o.constraint(xb), mult=o.get_multipliers(),
-                    gradf0=jax.grad(obj)(x0, p), g_scaled0=g_scaled0, total=o.get_total_residual(xq), resid=o.get_residual(xq),
-                    grad_xb=o.gradient(xb), tot_xb=o.total_residual(xb), kreset=(o.reset_kappa(), o.kappa)[1])
-    ex = dict(x0=onp.array([0.1, -0.3, 0.2]), p=onp.array([2.0, 1.5, 3.0, 0.2, -0.1, 0.3, 0.5, -1.0, 0.7]), Kd=onp.array([2.0, 1.5, 3.0]), css=2.0, xq=onp.array([0.05, 0.2, -0.1]))
-    smp = lambda rng: [rng.normal(size=3), rng.normal(size=9), onp.abs(rng.normal(size=3)) + 0.3, abs(rng.normal()) + 0.3, rng.normal(size=3)]
+        out = dict(lam0=o.lam, kappa0=o.kappa, scaling=o.scaling, inv=o.invScaling, c=o.constraint(xb), mult=o.get_multipliers(),
+                   gradf0=jax.grad(obj)(x0, p), g_scaled0=g_scaled0, total=o.get_total_residual(xq), resid=o.get_residual(xq),
+                   grad_xb=o.gradient(xb), tot_xb=o.total_residual(xb), kreset=(o.reset_kappa(), o.kappa)[1])
+        # a later state: multipliers lamq (solver state), evaluation point xq in ORIGINAL coordinates
+        o.lam = lamq
+        out.update(mult_q=o.get_multipliers(), resid_q=o.get_residual(xq), total_q=o.get_total_residual(xq), gradf_q=jax.grad(obj)(xq, p),
+                   idx_attr=jnp.asarray(o.constrainedIndices, dtype=float))
+        return out
+    ex = dict(x0=onp.array([0.1, -0.3, 0.2]), p=onp.array([2.0, 1.5, 3.0, 0.2, -0.1, 0.3, 0.5, -1.0, 0.7]), Kd=onp.array([2.0, 1.5, 3.0]), css=2.0, xq=onp.array([0.05, 0.2, -0.1]),
+              lamq=onp.array([0.3, 0.0]))
+    smp = lambda rng: [rng.normal(size=3), rng.normal(size=9), onp.abs(rng.normal(size=3)) + 0.3, abs(rng.normal()) + 0.3, rng.normal(size=3), onp.abs(rng.normal(size=2))]
     return Case(h, F, ex, sampler=smp, label='bco_precond' if with_precond else 'bco'), [2, 0]
 
 
 @obligation(P, 'O5.bound_objective', cap=400)
 def o5_bco(h):
-    """BoundConstrainedObjective (n=3, bounds on dofs 2 and 0): constraint function is the scaled constrained dofs, initial
+    """BoundConstrainedObjective (n=3, constrainedIndices = [2, 0], UNSORTED, concrete as in real use): get_multipliers()[i] pairs with
+    the caller's i-th index (total residual zero => Lagrangian stationary in original coordinates with the reported multipliers placed
+    at constrainedIndices[i], reported multipliers >= 0, dofs feasible, multiplier_i * x[constrainedIndices[i]] = 0); constraint function is the scaled constrained dofs, initial
     multipliers max(grad f(x0) * invScaling, 0)[idx] >= 0 and equal to the positive part of the scaled objective's gradient,
     kappa0 = 1/4, scaling * invScaling = 1, get_multipliers / get_residual / get_total_residual plumbing; without and with
     a preconditioner strategy (symbolic positive diagonal, symbolic constraintStiffnessScaling > 0)"""
@@ -1094,6 +1111,28 @@ def o5_bco(h):
             ats.append(Eq(o['total'], o['tot_xb'], name='get_total_residual_is_total_residual_at_scaled_point'))
             return asm, ats
         c.prove('with_precond' if wp else 'no_precond', spec, cap=150)
+
+        def spec_pairing(i, o, wp=wp, idx=idx):
+            """the property's clauses in ORIGINAL coordinates with the multipliers REPORTED by get_multipliers(): entry i belongs to
+            the caller's i-th constrained dof (bound x[idx[i]] >= 0)"""
+            Kd, css, xq, lamq = i['Kd'], s0(i['css']), i['xq'], i['lamq']
+            asm = [v_lt(0.0, css)] + [v_lt(0.0, Kd[k]) for k in range(3)]
+            inv, mult, gf = o['inv'], o['mult_q'], o['gradf_q']
+            tq = o['total_q']
+            kkt = [v_eq(tq[j], 0.0) for j in range(5)]
+            # Lagrangian gradient in original coordinates with get_multipliers()[i] placed at constrainedIndices[i]
+            lag = [gf[k] for k in range(3)]
+            for j, k in enumerate(idx):
+                lag[k] = v_sub(lag[k], mult[j])
+            ats = [Eq(o['idx_attr'], [float(k) for k in idx], name='constrainedIndices_attribute_is_the_callers_order')]
+            ats.append(Eq(lag, [0.0] * 3, when=v_and(*kkt), name='zero_total_residual_implies_lagrangian_stationary_with_reported_multipliers_at_callers_indices'))
+            for j, k in enumerate(idx):
+                ats.append(Le(0.0, mult[j], when=v_and(*kkt), name='zero_total_residual_implies_reported_multiplier_%d_nonnegative' % j))
+                ats.append(Le(0.0, xq[k], when=v_and(*kkt), name='zero_total_residual_implies_callers_dof_%d_feasible' % j))
+                ats.append(Eq(v_mul(mult[j], xq[k]), 0.0, when=v_and(*kkt), name='zero_total_residual_implies_complementarity_of_reported_multiplier_%d_with_callers_dof' % j))
+            # without any KKT hypothesis: residual = invScaling * (grad f - E mu) with mu the sub-problem multiplier, paired by the caller's order
+            return asm, ats
+        c.prove('pairing_with_precond' if wp else 'pairing_no_precond', spec_pairing, cap=150, order=('core', 'nlsat'))
 
 
 class BoundDriverObjective(_PublicState):
@@ -1200,13 +1239,13 @@ def _o6_fns():
     import jax
     import jax.numpy as jnp
     from optimism import BoundConstrainedObjective as BCO
-    idx = jnp.array([0])
+    idx = onp.array([0])
 
     def objf(x, p):
         return 0.5 * p[0] * x[0] * x[0] + p[1] * x[0]
 
     def build(x0, p, lam=None, kappa=None):
-        o = BCO.BoundConstrainedObjective(objf, x0, p, idx)
+        o = _build_bco(BCO, objf, x0, p, idx)
         if lam is not None:
             o.lam, o.kappa = lam, kappa
         return o
@@ -1516,7 +1555,7 @@ def o7_closures(h):
     c1.prove('constrained', spec, cap=120, order=('core', 'nlsat'))
 
     # ---- BoundConstrainedObjective (inherits the closures; scaled objective, construction penalty 1/4)
-    idx = jnp.array([2, 0])
+    idx = onp.array([2, 0])      # unsorted, concrete
 
     def objb(x, p):
         q, c = p[0], p[1]
@@ -1525,7 +1564,7 @@ def o7_closures(h):
 
     def FB(x0, q, c, lam, kappa, dp, vx):
         p = Params(q, c)
-        o = BCO.BoundConstrainedObjective(objb, x0, p, idx)
+        o = _build_bco(BCO, objb, x0, p, idx)
         o.lam, o.kappa = lam, kappa
         xb = o.scaling * x0
         g_of_q = _with_attr(o, 'p', lambda: o.gradient(xb))
